@@ -21,8 +21,10 @@ class FuelExhausted(BaseException):
 
 
 class CappedPred(Pred):
+    fuel = FUEL
+
     def __call__(self, ca, t):
-        if len(self.calls) >= FUEL:
+        if len(self.calls) >= self.fuel:
             raise FuelExhausted()
         return super().__call__(ca, t)
 
@@ -61,6 +63,14 @@ def gen(ctx):
     yield dict(kind="ev1", hist=[[0, 0, 0, 0, 1, 0, 0, 0]], dtype="int32", scale=1, r=1, rule="nks:4", memo="True", pred="fixedpoint", fuel=FUEL)
     for _ in range(ctx.n(500, 5000)):
         yield rand_case(rng)
+    # long runs (buffer growth thresholds 32 / 64 / 128 / 256 states) with and without a prior history, every mode
+    for K in ([33, 66, 130] if ctx.tier == "quick" else [31, 32, 33, 63, 64, 65, 66, 127, 128, 129, 130, 257]):
+        for H in (1, 2, 3):
+            N = rng.randint(3, 7)
+            hist = [[rng.randrange(2) for _ in range(N)] for _ in range(H)]
+            yield dict(kind="ev1", hist=hist, dtype="int32", scale=1, r=1, rule=rng.choice(["nks:30", "nks:110", "hash:3:2:1:0"]),
+                       memo=rng.choice(["False", "True", "recursive_lit"]), pred="steps:%d" % K, fuel=K + 5)
+            yield dict(kind="ev1", hist=hist, dtype="int32", scale=1, r=1, rule="nks:30", memo="False", pred="lenle:%d" % K, fuel=K + 5)
     # states of large magnitude that keep moving by a few units per step: "unchanged" must mean equal, not close
     for _ in range(ctx.n(60, 600)):
         N = rng.randint(2, 9)
@@ -103,6 +113,7 @@ def run_capped(c):
     ca = ev1.make_ca(c)
     rule = Rule(c["rule"], c.get("scale", 1))
     pred = CappedPred(c["pred"], c.get("scale", 1))
+    pred.fuel = c.get("fuel", FUEL)
     try:
         res = cpl.evolve(ca, timesteps=pred, apply_rule=rule, r=c["r"], memoize=ev1.memo_value(c["memo"]))
     except FuelExhausted:
